@@ -3,6 +3,7 @@ package plugin
 import (
 	"context"
 	"errors"
+	"fmt"
 	"sync"
 
 	corev1 "k8s.io/api/core/v1"
@@ -35,11 +36,17 @@ type Counter struct {
 	N     int
 	Fault int
 	Log   []Call
+	// BindMode is the fate of the pods/binding calls of the current op: "" (answered truthfully), "lost" (the first
+	// one is applied at the server but a timeout is returned; later ones are answered truthfully) or "unavail" (every
+	// one fails with 500, nothing applied)
+	BindMode string
+	binds    int
 }
 
 func (c *Counter) Reset(fault int) {
 	c.mu.Lock()
 	c.N, c.Fault, c.Log = 0, fault, nil
+	c.BindMode, c.binds = "", 0
 	c.mu.Unlock()
 }
 
@@ -136,12 +143,25 @@ func (p *podsDeco) Bind(ctx context.Context, b *corev1.Binding, o metav1.CreateO
 	if p.c.tick("bind", "pods", p.ns+"/"+b.Name) {
 		return ErrInjected
 	}
+	p.c.mu.Lock()
+	mode := p.c.BindMode
+	p.c.binds++
+	nth := p.c.binds
+	p.c.mu.Unlock()
+	if mode == "unavail" {
+		return apierrors.NewInternalError(errors.New("etcdserver: request timed out"))
+	}
 	pod, err := p.PodInterface.Get(ctx, b.Name, metav1.GetOptions{})
 	if err != nil {
-		return err
+		return err // 404 NotFound
 	}
 	if b.UID != "" && pod.UID != b.UID {
 		return apierrors.NewConflict(schema.GroupResource{Resource: "pods"}, b.Name, errors.New("uid precondition failed"))
+	}
+	if pod.Spec.NodeName != "" {
+		// BindingREST.assignPod: "pod %v is already assigned to node %q"
+		return apierrors.NewConflict(schema.GroupResource{Resource: "pods/binding"}, b.Name,
+			fmt.Errorf("pod %s is already assigned to node %q", b.Name, pod.Spec.NodeName))
 	}
 	pod = pod.DeepCopy()
 	pod.Spec.NodeName = b.Target.Name
@@ -152,6 +172,10 @@ func (p *podsDeco) Bind(ctx context.Context, b *corev1.Binding, o metav1.CreateO
 		pod.Annotations[k] = v
 	}
 	_, err = p.PodInterface.Update(ctx, pod, metav1.UpdateOptions{})
+	if err == nil && mode == "lost" && nth == 1 {
+		// applied at the server, the response never reaches the client
+		return apierrors.NewTimeoutError("the server was unable to return a response in the time allotted", 1)
+	}
 	return err
 }
 
